@@ -87,7 +87,7 @@ func init() {
 	ev.RegisterReplay(chkSweep, replay)
 	ev.RegisterReplay(chkRapid, replay)
 	ev.RegisterReplay(chkIntake, replayIntake)
-	ev.Assume("times are non-negative and below 2^62 (int64/uint64 casts are not part of the claim)")
+	ev.Assume("anchoring times are below 2^62; signed window bounds may be any int64, pre-epoch (negative) ones included")
 }
 
 // TestReplay runs first.
@@ -281,11 +281,13 @@ func TestRapidTriples(t *testing.T) {
 		p.DeltaSize = uint(rapid.IntRange(2000, 40000).Draw(t, "deltaSize"))
 		p.OperationSize = p.DeltaSize + uint(rapid.IntRange(4000, 20000).Draw(t, "opSizeExtra"))
 		p.HashLength = uint(rapid.IntRange(100, 200).Draw(t, "hashLength"))
-		from := int64(rapid.SampledFrom([]int{0, 0, 1000, 50000, 1 << 40}).Draw(t, "from"))
+		from := int64(rapid.SampledFrom([]int{0, 0, 1000, 50000, 1 << 40, -10, -(1 << 40)}).Draw(t, "from")) // pre-epoch bounds are legal int64 values
 		until := int64(0)
 		if rapid.Bool().Draw(t, "hasUntil") {
 			until = from + int64(rapid.IntRange(1, 300000).Draw(t, "untilOffset"))
-			if from > 1 && rapid.IntRange(0, 4).Draw(t, "emptyWindow") == 0 {
+			if rapid.IntRange(0, 9).Draw(t, "preEpochUntil") == 0 {
+				until = -int64(rapid.IntRange(1, 100000).Draw(t, "negUntil")) // expired before the epoch
+			} else if from > 1 && rapid.IntRange(0, 4).Draw(t, "emptyWindow") == 0 {
 				// an empty window (anchorUntil before anchorFrom): no anchoring time is inside it
 				until = from - int64(rapid.IntRange(1, int(min64(from-1, 5000))).Draw(t, "untilBefore"))
 			}
